@@ -502,6 +502,8 @@ CORPUS = [
     ["dev O", "new 2 0", "loop n:0 n:9 | a:2", "loop a:2", "loop n:2 | a:2"],
     # F67 (clone of a zero-length slice)
     ["dev S", "new 3 1 5", "slice 3 2 0 0", "clone 2 2", "shl 2 4 0 7", "shr 2 5 0 7"],
+    # resize keeps the common prefix in both directions (and views of the old memory stay intact)
+    ["dev S", "new 0 3 1 2 3", "asg 0 1", "resize 0 5", "get 0", "cpf 0 5 9 8 7 6 5", "resize 0 2", "get 0", "get 1"],
     # plain regressions
     ["dev O", "new 0 5 3 1 4 1 5", "tile 0 1024 1", "map 0 1 2 2 1", "rev 1 2", "concat 1 2 3", "slice 3 4 2 5", "fill 4 7", "get 3"],
     ["dev S", "loop n:3 r:2:11:3 | n:2", "loop n:10:t4", "loop n:5:t2 r:0:3:1:t8"],
